@@ -534,8 +534,11 @@ def main():
         print("no obligations for %s tier %s" % (prop, tier)); return 3
     wd = os.path.join(BUILD, "%s-%s-%d" % (prop, tier, os.getpid()))
     shutil.rmtree(wd, ignore_errors=True); os.makedirs(wd)
-    hints_file = os.path.join(ROOT, "unwind_hints.json")
-    unwind_hints = json.load(open(hints_file)) if os.path.exists(hints_file) else {}
+    # learned loop bounds, one file per harness spec: only hints - unwinding assertions re-check them on every run
+    unwind_hints = {}
+    for hf in glob.glob(os.path.join(ROOT, "hints", "*.json")):
+        try: unwind_hints.update(json.load(open(hf)))
+        except Exception: pass
     # translation units
     tus = {}
     for s, o, cfg in obls:
@@ -574,7 +577,16 @@ def main():
         if r.get("learned_unwindset"):
             new_hints["%s/%s/%s" % (tu.key, r["entry"], tier)] = r["learned_unwindset"]
     if os.environ.get("VP_SAVE_HINTS") == "1":
-        json.dump(new_hints, open(hints_file, "w"), indent=0, sort_keys=True)
+        os.makedirs(os.path.join(ROOT, "hints"), exist_ok=True)
+        by_spec = {}
+        for tu, r in results:
+            if r.get("learned_unwindset") is not None and r["status"] in ("discharged", "violated", "failed"):
+                by_spec.setdefault(tu.spec["_id"], {})["%s/%s/%s" % (tu.key, r["entry"], tier)] = r["learned_unwindset"]
+        for sid, d in by_spec.items():
+            hf = os.path.join(ROOT, "hints", sid + ".json")
+            cur = json.load(open(hf)) if os.path.exists(hf) else {}
+            cur.update(d)
+            json.dump(cur, open(hf, "w"), indent=0, sort_keys=True)
     # verdict
     known = load_known()
     violations = []; known_hits = []; inconcl = []
